@@ -127,6 +127,14 @@ structure QErr where
   kind : ErrKind
 deriving DecidableEq, Repr
 
+instance : DecidableEq (Except QErr Bytes) := fun a b =>
+  match a, b with
+  | .ok x, .ok y => if h : x = y then isTrue (by rw [h]) else isFalse (fun e => h (by cases e; rfl))
+  | .error x, .error y =>
+    if h : x = y then isTrue (by rw [h]) else isFalse (fun e => h (by cases e; rfl))
+  | .ok _, .error _ => isFalse (fun e => by cases e)
+  | .error _, .ok _ => isFalse (fun e => by cases e)
+
 /-- The first `switch r` of Quote: characters that force quoting. -/
 def isShellChar (r : Nat) : Bool :=
   -- ; " ' ( ) $ | & > < `   space \t \r \n   \   #   {   ~   * ? [   =
